@@ -109,6 +109,17 @@ def py_value(c, ty, D, internal):
     return c
 
 
+def tuplify(rng, v, p=0.5):
+    """Sequence flavours of a code-built default: lists become tuples at random depths (tuple, nested tuple, list of
+    tuples, tuple inside a dict). They must print — and be dumped — like the equivalent list."""
+    if isinstance(v, (list, tuple)):
+        items = [tuplify(rng, x, p) for x in v]
+        return tuple(items) if rng.random() < p else items
+    if isinstance(v, dict):
+        return {k: tuplify(rng, x, p) for k, x in v.items()}
+    return v
+
+
 def code_build(rng, D, p_omit=0.0):
     """Build `D` with the library's constructors. Returns (schema, omitted) where `omitted` tells whether some
     input-object default leaves out a field that has a default (finding H2)."""
@@ -133,7 +144,7 @@ def code_build(rng, D, p_omit=0.0):
         v = py_value(c, a["type"], D, internal)
         if p_omit and rng.random() < p_omit:
             v = omit(v, a["type"])
-        return {"default_value": v}
+        return {"default_value": tuplify(rng, v)}
 
     def omit(v, t):
         """Drop keys of defaulted input fields from dict defaults (what a user writing Python would do)."""
@@ -336,7 +347,10 @@ def gen_case(ctx, size=None):
     return "code", {"content": D, "seed": seed, "p_omit": p_omit}, s, omitted
 
 
-ANY_POOL = [True, 1, 1.0, 0, False, 0.0, "1", "0", "x", None, 2, -1.5, "true", 1.5]
+ANY_POOL = [True, 1, 1.0, 0, False, 0.0, "1", "0", "x", None, 2, -1.5, "true", 1.5,
+            # strings of a pass-through scalar that look numeric (finding H3, fixed in /repo 889f979): written as a number
+            # only when the number denotes the very same text
+            "42.42", "1e+20", "007", "1e3", "1.50", "nan", " 7 ", "0.1", "-0.0", "1.5e-07", "inf", "1e-05", "100.0", "1.0e+16"]
 
 
 def shared_build(seed, count):
@@ -356,7 +370,7 @@ def shared_build(seed, count):
         if isinstance(t, S.NonNullType) and v is None:
             v = 1
         if isinstance(t, S.ListType):
-            return v if v is None else [x for x in rng.sample(ANY_POOL, rng.randint(0, 3))]
+            return v if v is None else tuplify(rng, [x for x in rng.sample(ANY_POOL, rng.randint(0, 3))])
         return v
 
     def args(prefix, n):
